@@ -1164,6 +1164,20 @@ class Exec:
                 h = self.invariants.get(("comprehension", e.lineno))
                 if h:
                     return h(self, e, it, env, path)
+                if it.ndim == 1 and not g.ifs and it.mask is None:
+                    # [f(x) for x in a] over a symbolic 1-d array with a scalar-valued element expression: an array over the same
+                    # axis whose k-th entry is f(a[k]) (expression evaluated per index; must be pure)
+                    env0 = dict(env)     # the comprehension sees the bindings of *now* (the enclosing loop rebinds later)
+
+                    def elem_at(k, it=it):
+                        env2 = dict(env0)
+                        self.assign(g.target, it.elem(k), env2, path)
+                        return self.ev(e.elt, env2, path)
+                    probe = elem_at(self.new_int("lc"))
+                    if isinstance(probe, (T, Obj, list, tuple, dict, str)) or probe is None:
+                        raise Unsupported(f"comprehension over symbolic tensor with non-scalar element line {e.lineno}")
+                    kind = "int" if (pyint(probe) or (is_sym(probe) and getattr(probe, "sort", lambda: None)() == IntSort())) else "real"
+                    return T((it.axes[0],), elem_at, kind=kind, prov="fresh")
                 raise Unsupported(f"comprehension over symbolic tensor line {e.lineno}")
         if isinstance(it, tuple) and it and it[0] == "range":
             if not pyint(it[1]):
